@@ -13,8 +13,8 @@ git apply -R "$out/patch.diff"; without=$(run_demo); tail -2 /tmp/demo_out.txt >
 echo "demo: with change rc=$with, without change rc=$without"
 evd=$(mktemp -d)
 for c in $prop "$@"; do
-  res=$(cd /verif && VERIF_REPO="$wt" VERIF_EVIDENCE_DIR=$evd ./vcheck $c quick 2>&1); rc=$?
-  echo "check $c rc=$rc :: $(echo "$res" | grep -E '^  clause=' | head -2 | tr '\n' ' ' | cut -c1-400)"
+  res=$(cd /verif && VERIF_LIST=${HARVEST_LIST:-0} VERIF_REPO="$wt" VERIF_EVIDENCE_DIR=$evd timeout 1500 ./vcheck $c quick 2>&1); rc=$?
+  echo "check $c rc=$rc :: $(echo "$res" | grep -E "^  clause=|^SIG NEW" | head -2 | tr '\n' ' ' | cut -c1-400)"
   echo "$res" | tail -1
 done
 rm -rf $evd
